@@ -14,6 +14,7 @@ import random
 import shutil
 
 import hsreplay13
+import hsreplay13f
 import scen
 import vlib
 
@@ -169,6 +170,23 @@ def run(chk):
             elif r.get("diverge") and ninc == 0 and summ.get("diverged", 0) <= 2:
                 chk.note("DIVERGENCE model/code (1.3 %s script %d): %s" % (variant, r["script"], r["diverge"][0]))
         chk.parts["replay13." + variant] = {"scripts": summ["scripts"], "completed": summ.get("completed", 0), "diverged": summ.get("diverged", 0)}
+    # (B1, DTLS 1.3, server flight in several datagrams) spec/Handshake13F.tla: selective acknowledgement and retransmission;
+    # false acknowledgements (AckSound) lose data for good, so that predicate is judged here too
+    hsreplay13f.liveness(chk)
+    s13f = hsreplay13f.generate(chk, limit=25000 if chk.quick else 150000)
+    rows, summ = hsreplay13f.replay(chk, binary, s13f)
+    ninc = 0
+    for r in rows:
+        bad = [x for x in r.get("law", []) if "C02" in x]
+        if not r["completed"] or bad:
+            ninc += 1
+            chk.violation({"kind": "no-completion-after-faults", "variant": "dtls13-fragmented-flight", "final": r.get("final"), "wedge": r.get("wedge"),
+                           "what": (bad or ["both endpoints did not complete once the network turned reliable"])[0],
+                           "cerr": r.get("cerr"), "serr": r.get("serr"),
+                           "script13f": {"scen": hsreplay13f.SCEN, "steps": s13f[r["script"]]["steps"], "qmax": hsreplay13f.QMAX, "bkcap": 3}})
+        elif r.get("diverge") and ninc == 0 and summ.get("diverged", 0) <= 2:
+            chk.note("DIVERGENCE model/code (1.3 fragmented flight script %d): %s" % (r["script"], r["diverge"][0]))
+    chk.parts["replay13f"] = {"scripts": summ["scripts"], "completed": summ.get("completed", 0), "diverged": summ.get("diverged", 0)}
     # (B2)
     cases = mask_cases(chk)
     rows, summ = run_masks(chk, binary, cases)
@@ -220,6 +238,19 @@ def replay(chk, path):
         for r in rows:
             if not r["completed"] or not r.get("dataOk"):
                 chk.violation(dict(facts, replayed=True))
+    elif "script13f" in facts:
+        wd = vlib.scratch("c02r")
+        try:
+            inp, out = os.path.join(wd, "in"), os.path.join(wd, "out")
+            open(inp, "w").write(json.dumps(facts["script13f"]) + "\n")
+            vlib.run_test(binary, "TestVerifHs13FScripts", {"VERIF_IN": inp, "VERIF_OUT": out})
+            chk.evaluated(key="replay13f")
+            chk.evaluated(key="replay")
+            for r in vlib.read_ndjson(out)[:-1]:
+                if not r["completed"] or any("C02" in x for x in r.get("law", [])):
+                    chk.violation(dict(facts, replayed=True), replay=path)
+        finally:
+            shutil.rmtree(wd, ignore_errors=True)
     elif "script13" in facts:
         wd = vlib.scratch("c02r")
         try:
